@@ -315,6 +315,10 @@ def main(argv):
     if replay:
         rj = json.load(open(replay))
         seed, tier = rj.get("seed", seed), rj.get("tier", tier)
+        # a failure found in a later thorough round carries the seed of that round
+        first = rj.get("failure") or (rj.get("mismatches") or rj.get("correspondence_mismatches") or [{}])[0]
+        if isinstance(first, dict) and first.get("seed"):
+            seed = first["seed"]
     cfg = json.load(open(os.path.join(VERIF, "checks", prop + ".json")))
     t0 = time.time()
     problems = []       # broken obligations / correspondence (names)
@@ -383,22 +387,58 @@ def main(argv):
         if hrc != 0:
             problems.append("harness does not build against /repo: " + ho.strip()[-1500:])
         else:
-            for f in glob.glob(os.path.join(rundir, "*")):
-                if os.path.isfile(f):
-                    os.remove(f)
-            cmd = [harness_bin(cfg["harness"]), "--seed", str(seed),
-                   "--tier", tier, "--out", rundir]
-            if replay:
-                cmd += ["--replay", replay]
-            rc, o, dt = run(cmd, cwd=rundir, env=GOENV, timeout=cfg.get("harness_timeout", 3000))
-            if rc != 0:
-                problems.append("harness run failed (rc=%d): %s" % (rc, o.strip()[-1500:]))
-            else:
-                stats = json.load(open(os.path.join(rundir, "stats.json")))
+            rounds = int(cfg.get("thorough_rounds", 1)) if (tier == "thorough" and not replay) else 1
+            rounds = int(os.environ.get("VERIF_ROUNDS", rounds))
+            for old in glob.glob(os.path.join(rundir, "r[0-9]*")):
+                if os.path.isdir(old):
+                    for f in glob.glob(os.path.join(old, "*")):
+                        os.remove(f)
+                    os.rmdir(old)
+            merged = None
+            for r in range(rounds):
+                # round 0 is the registered seed; further rounds (thorough tier) re-run the
+                # generators from other seeds and are decided exactly like round 0
+                rdir = rundir if r == 0 else os.path.join(rundir, "r%d" % r)
+                rseed = seed + r * 1000003
+                os.makedirs(rdir, exist_ok=True)
+                for f in glob.glob(os.path.join(rdir, "*")):
+                    if os.path.isfile(f):
+                        os.remove(f)
+                cmd = [harness_bin(cfg["harness"]), "--seed", str(rseed),
+                       "--tier", tier, "--out", rdir]
+                if replay:
+                    cmd += ["--replay", replay]
+                rc, o, dt = run(cmd, cwd=rdir, env=GOENV, timeout=cfg.get("harness_timeout", 3000))
+                if rc != 0:
+                    problems.append("harness run failed (rc=%d, seed=%d): %s" % (rc, rseed, o.strip()[-1500:]))
+                    break
+                st = json.load(open(os.path.join(rdir, "stats.json")))
+                for f in st.get("oracle_failures") or []:
+                    f.setdefault("seed", rseed)
+                rmism = []
                 if make_ok:
-                    shards, mism, broken_shards = eval_cases(rundir)
-                    for p, o in broken_shards:
-                        problems.append("model evaluation failed on %s: %s" % (os.path.basename(p), o[-600:]))
+                    sh, rmism, br = eval_cases(rdir)
+                    shards += sh
+                    broken_shards += br
+                    for p, o in br:
+                        problems.append("model evaluation failed on %s (seed=%d): %s" % (os.path.basename(p), rseed, o[-600:]))
+                    mism += [{"id": i, "seed": rseed, "case": st.get("case_index", {}).get(str(i))} for i in rmism]
+                if merged is None:
+                    merged = st
+                    merged["oracle_failures"] = list(st.get("oracle_failures") or [])
+                else:
+                    merged["evaluations"] = merged.get("evaluations", 0) + st.get("evaluations", 0)
+                    merged["distinct_nontrivial"] = merged.get("distinct_nontrivial", 0) + st.get("distinct_nontrivial", 0)
+                    merged["oracle_failures"] += st.get("oracle_failures") or []
+                    for k, v in (st.get("distribution") or {}).items():
+                        if isinstance(v, (int, float)) and isinstance(merged["distribution"].get(k, 0), (int, float)):
+                            merged["distribution"][k] = merged["distribution"].get(k, 0) + v
+                    merged["exhaustive"] = bool(merged.get("exhaustive")) and bool(st.get("exhaustive"))
+            if merged is not None:
+                stats = merged
+                stats.setdefault("extra", {})
+                if rounds > 1:
+                    stats["extra"]["thorough_rounds"] = rounds
     oracle_failures = stats.get("oracle_failures") or []
 
     # ---- stage 4/5: decide, search
@@ -432,7 +472,7 @@ def main(argv):
         # implementation differs from it is a concrete failing input
         rp = os.path.join(BUILD, "replay", "%s-mismatch.json" % prop)
         json.dump({"property": prop, "seed": seed, "tier": tier, "kind": "implementation-differs-from-reference-model",
-                   "mismatches": [{"id": i, "case": stats.get("case_index", {}).get(str(i))} for i in mism[:20]]},
+                   "mismatches": mism[:20]},
                   open(rp, "w"), indent=1)
         out_lines.append("VIOLATION property=%s replay=%s" % (prop, rp))
         exit_code = 1
@@ -460,8 +500,7 @@ def main(argv):
             out_lines.append("VIOLATION property=%s replay=%s" % (prop, rp))
         else:
             body.update(kind="broken-obligation-or-correspondence", no_longer_checks=problems,
-                        correspondence_mismatches=[{"id": i, "case": stats.get("case_index", {}).get(str(i))}
-                                                   for i in mism[:20]])
+                        correspondence_mismatches=mism[:20])
             json.dump(body, open(rp, "w"), indent=1)
             out_lines.append("VIOLATION property=%s replay=%s no-failing-input-found" % (prop, rp))
         exit_code = 1
